@@ -203,6 +203,15 @@ def FramesIn (a : Alloc) (s : C19.Sys) : Prop :=
     (∀ f ∈ a.free.getD d [], f + (1 <<< a.lg) ≤ (s.mem (d - 1)).size) ∧
     (∀ pg ∈ a.table, pg.dev = d → pg.paddr + (1 <<< a.lg) ≤ (s.mem (d - 1)).size)
 
+/-- the allocator keeps its frames where its address ranges say: every device with a range has a free list, a
+    free frame of device `d` and the frame of a page recorded on device `d` lie in the range of device `d` — so
+    `deviceIDByPAddr` (`Alloc.deviceOf`) finds the device a frame came from when `ReleasePhysicalPage` gives
+    it back -/
+def RangeOK (a : Alloc) : Prop :=
+  a.range.length ≤ a.free.length ∧
+  (∀ d, d < a.free.length → ∀ f ∈ a.free.getD d [], a.deviceOf f = some d) ∧
+  (∀ pg ∈ a.table, a.deviceOf pg.paddr = some pg.dev)
+
 /-- number of pages a request wants on GPU `g` (0-based) -/
 def wants (ngpu : Nat) (r : MmuReq) (g : Nat) : Nat := ((migOrder ngpu r.map).filter (·.1 = g)).length
 
@@ -248,7 +257,8 @@ structure CfgOK (c : Cp) : Prop where
   small : c.nCU < CP.w64 ∧ c.nAT < CP.w64 ∧ c.nTLB < CP.w64 ∧ c.nCache < CP.w64
 
 /-- an initial state: `ngpu ≥ 2` GPUs, every CP idle and well configured, the driver idle with an
-    allocator whose frames lie inside the two memories, process 1 registered -/
+    allocator whose frames lie inside the two memories and inside the address ranges of their devices,
+    process 1 registered -/
 structure Init (s : Sys) : Prop where
   ngpu : 2 ≤ s.drv.ngpu ∧ s.drv.ngpu < CP.w64 ∧ s.drv.nPmc = s.drv.ngpu
   caps : s.drv.ngpu + 1 ≤ s.drv.capGpuIn ∧ s.drv.ngpu + 1 ≤ s.drv.capGpuOut
@@ -266,6 +276,7 @@ structure Init (s : Sys) : Prop where
   mmu : s.mmuSent = [] ∧ s.mmuGot = []
   frames : FramesIn s.drv.alloc s.w.sys
   lg : (1 <<< s.drv.alloc.lg) % unit = 0 ∧ 0 < (1 <<< s.drv.alloc.lg)
+  ranges : RangeOK s.drv.alloc
 
 /-- the states reachable from an initial state by valid moves -/
 inductive Reach : Sys → Prop
